@@ -1,6 +1,7 @@
-"""C09-boolean-demoted (replay).  A tracked LinCombBool that lives through ANY block comes out of the merge at the block exit as
-a plain LinComb (BranchingValues.backup() deep-copies it into a NEW LinCombBool, so `if_then_else` does not take its identity
-shortcut and returns `copy + cond*(b - copy)`); one extra constraint per merge, and using it as a block condition afterwards raises.
+"""C09-boolean-demoted (replay; REPAIRED by a fix: commit in if_then_else — on the repaired tree this script prints LinCombBool twice
+and `second block ran, y = 6`).  Before the repair a tracked LinCombBool that lived through ANY block came out of the merge at the
+block exit as a plain LinComb (BranchingValues.backup() deep-copies it into a NEW LinCombBool, so `if_then_else` does not take its
+identity shortcut and returned `copy + cond*(b - copy)`); using it as a block condition afterwards raised RuntimeError.
 Native twin: `b = (x == 1); if c: y += 1; if b: y += 1` runs.   Run from a scratch directory:  /venv/bin/python c09_boolean_demoted.py"""
 import os
 os.environ.setdefault("PYSNARK_BACKEND", "nobackend")
@@ -14,7 +15,7 @@ print("before the block:", type(_.b).__name__)
 if _if(PrivVal(0) == 1, ctx=_):
     _.y = _.y + 1
 _endif(ctx=_)
-print("after a block that does not touch b:", type(_.b).__name__, "value", _.b.value)
+print("after a block that does not touch b:", type(_.b).__name__, "value", _.b.val())
 try:
     if _if(_.b, ctx=_):
         _.y = _.y + 1
